@@ -11,7 +11,7 @@ from .data import guid_hook
 
 
 class MNode:
-    __slots__ = ("uid", "data", "did", "explicit", "kind", "meta", "children", "parent")
+    __slots__ = ("uid", "data", "did", "explicit", "kind", "meta", "children", "parent", "nid")
 
     def __init__(self, uid, data, did, *, explicit=False, kind=None, meta=None):
         self.uid = uid
@@ -22,6 +22,7 @@ class MNode:
         self.meta = meta
         self.children: list[MNode] = []
         self.parent: MNode | None = None
+        self.nid = None  # explicit node_id, if one was given
 
     def __repr__(self):
         return f"M<{self.uid}>"
